@@ -73,6 +73,7 @@ pub trait Probe: ChipModel {
     fn op_starts(&self) -> &Vec<OpStart>;
     fn prog(&self) -> u16;
     fn losses(&self) -> u32;
+    fn last_loss(&self) -> &'static str;
     fn clear_transcript(&mut self);
     fn tx_payloads(&self) -> &Vec<Vec<u8>>;
 }
@@ -117,6 +118,9 @@ impl Probe for Chip126x {
     }
     fn losses(&self) -> u32 {
         self.losses
+    }
+    fn last_loss(&self) -> &'static str {
+        self.last_loss
     }
     fn clear_transcript(&mut self) {
         self.transcript.clear();
@@ -167,6 +171,9 @@ impl Probe for Chip127x {
     }
     fn losses(&self) -> u32 {
         self.losses
+    }
+    fn last_loss(&self) -> &'static str {
+        "reset"
     }
     fn clear_transcript(&mut self) {
         self.transcript.clear();
